@@ -139,8 +139,31 @@ func (r *replayer) replay(harness string, tapePath string) string {
 	cmd.Env = append(os.Environ(), "VERIF_TAPE="+tapePath)
 	cmd.Dir = pkgDirOf(r.eng.repo, harnessPkgs[pkgDir])
 	out, _ := cmd.CombinedOutput()
-	if r.race && strings.Contains(string(out), "WARNING: DATA RACE") {
+	if r.race && (strings.Contains(string(out), "fatal error: concurrent map") || strings.Contains(string(out), "WARNING: DATA RACE")) {
 		return "REPLAY confirmed-race the race detector reports a data race between the two operations"
+	}
+	if r.race && strings.Contains(string(out), "ISOLATION ") {
+		// no data race: shared state may still be synchronised (atomics, locks). Run each
+		// workload alone and after the other one, in separate processes, and compare
+		// what it did.
+		iso := func(mode, label string) string {
+			c := exec.Command("timeout", "120", bin, "-test.run", "^TestVerifReplay$", "-test.v", "-test.timeout", "100s")
+			c.Env = append(os.Environ(), "VERIF_TAPE="+tapePath, "VERIF_C19_MODE="+mode)
+			c.Dir = cmd.Dir
+			o, _ := c.CombinedOutput()
+			for _, l := range strings.Split(string(o), "\n") {
+				if strings.HasPrefix(l, "ISOLATION "+label+" ") {
+					return l
+				}
+			}
+			return ""
+		}
+		for _, pr := range [][3]string{{"a", "ba", "a"}, {"b", "ab", "b"}} {
+			alone, after := iso(pr[0], pr[2]), iso(pr[1], pr[2])
+			if alone != "" && after != "" && alone != after {
+				return "REPLAY confirmed-interference workload " + pr[2] + " behaves differently when the other connection's workload ran first in the same process (run alone: " + clip(alone, 80) + "; after the other: " + clip(after, 80) + ")"
+			}
+		}
 	}
 	for _, l := range strings.Split(string(out), "\n") {
 		if strings.HasPrefix(l, "REPLAY ") {
@@ -153,6 +176,13 @@ func (r *replayer) replay(harness string, tapePath string) string {
 		s = s[len(s)-400:]
 	}
 	return "REPLAY no-result " + strings.ReplaceAll(s, "\n", " | ")
+}
+
+func clip(s string, n int) string {
+	if len(s) > n {
+		return s[:n] + "..."
+	}
+	return s
 }
 
 func writeTape(path string, h string, tier int, params map[string]int, tape []Draw) {
@@ -470,6 +500,11 @@ func cmdCheck(args []string) {
 				tp := filepath.Join(scratch, fmt.Sprintf("w-%d.json", nRep))
 				writeTape(tp, hc.Name, tier, params, w)
 				out := rp.replay(hc.Name, tp)
+				// harnesses on the real clock (C13) can miss their scheduling allowance on a
+				// loaded machine: a witness only has to complete once
+				for try := 0; try < 2 && !strings.HasPrefix(out, "REPLAY passed"); try++ {
+					out = rp.replay(hc.Name, tp)
+				}
 				ev.Witness = append(ev.Witness, out)
 				if strings.HasPrefix(out, "REPLAY passed") {
 					validated++
